@@ -639,8 +639,11 @@ class OutputSchemaBuilder(
         def resolve(obj, _):
             return partial_serialize(getattr(obj, field_name))
 
+        # None has been removed from the type of a none_as_undefined field, but it is a
+        # possible value of the field (resolved as null)
+        field_type = Optional[field.type] if field.none_as_undefined else field.type
         with self._not_flattened():
-            factory = self.visit_with_conv(field.type, field.serialization)
+            factory = self.visit_with_conv(field_type, field.serialization)
         field_schema = get_field_schema(tp, field)
         return lambda: graphql.GraphQLField(
             factory.type,
